@@ -133,6 +133,12 @@ def validate_traces(rep, traces, scripts, pid, flags_of_interest, tag):
                 if scripts and isinstance(scripts[k], dict) and "scheduler" in scripts[k]:
                     det["run"] = scripts[k]            # a real-scheduler run: (scheduler, seed, n_workers, ...)
                     sig["scheduler"] = scripts[k]["scheduler"]
+                    if f == "unexpected_exception" and scripts[k].get("end_msg"):
+                        sig["exc"] = scripts[k]["end_msg"].split("(")[0]
+                    if "resume_failed_run" in v.flags:
+                        # the scheduler resumed a FAILED trial: everything the monitor reports for this run afterwards
+                        # follows from that illegal resume (known finding F09 when the scheduler is synchronous Hyperband)
+                        sig["after_resume_of_failed"] = True
                 else:
                     det["script"] = scripts[k] if scripts else None
                 rep.violation(sig, det)
